@@ -296,7 +296,7 @@ async def run(ctx):
     if ctx.shard == 0:
         # fixed cases that every run must contain whatever the seed: unknown package, out-of-range keys, nested package, all flags
         for s, resolve, replace in [("[1]U[4711P]", True, False), ("Muss [4711P0..1] O [2]", True, True), ("[1]U[4711P]", False, False), ("[0]U[1]", False, False), ("[1]U[1000]", False, True), ("[2500]", False, False),
-                                    ("[53] U [007]", False, False), ("[502] [0501] U [0950][951]", False, False), ("[7]U[007]U[07]", False, False),
+                                    ("[53] U [007]", False, False), ("[502] [0501] U [0950][951]", False, False), ("[7]U[007]U[07]", False, False), ("[7] U [007] U [7]", False, False), ("[0501] O [501] O [0501] U [00901][901][00901]", False, False), ("Muss [7] U [007] Kann [7]", False, False),
                                     ("[3P]U[UB3]", True, True), ("[3P]U[UB3]", True, False), ("[3P]U[UB3]", False, True), ("[123P][10P]", True, True), ("[499]U[500]U[900]U[901]U[999]U[2000]U[2499]", False, False)]:
             await check_extraction(ctx, {"s": s, "resolve": resolve, "replace": replace})
             ctx.count("extract_cases")
